@@ -516,8 +516,10 @@ where
 
     fn output_frames_max(&self) -> usize {
         // Set length to chunksize*ratio plus a safety margin of 10 elements.
-        (self.max_chunk_size as f64 * self.resample_ratio_original * self.max_relative_ratio + 10.0)
-            as usize
+        // The highest ratio that can be set is original * max: multiply in that order, so that
+        // rounding cannot make this smaller than output_frames_next() at that ratio.
+        (self.max_chunk_size as f64 * (self.resample_ratio_original * self.max_relative_ratio)
+            + 10.0) as usize
     }
 
     fn output_frames_next(&self) -> usize {
